@@ -18,3 +18,5 @@ def check(ctx: Ctx) -> None:
     A.r_raise_inventory(ctx, "R10.4")
     N.r_get_group_ids(ctx, "R10.4g")
     S.r_atomic_slot_registry(ctx, "R10.5")
+    # live groups never share an id only if ids are unique: shared obligation with C11
+    N.r_id_discipline(ctx, "R10.6")
